@@ -283,6 +283,7 @@ func run(c *vf.Ctx) {
 
 	rng := rand.New(rand.NewSource(c.Seed))
 	var events []any
+	nWide := 0
 	skipped := 0
 	for ci, k := range order {
 		cases := byCfg[k]
@@ -332,6 +333,30 @@ func run(c *vf.Ctx) {
 					}
 				}
 			}
+			// default deny over the port space: every port that shares its low or its high byte with the service's port
+			// (thorough: all 65536 for four protocols; every 16th configuration: all 256 protocols on the byte-sharing ports). Only ADMITTED pairs are handed
+			// to TLC - each must be justified by a service; the ports around p above cover the other direction.
+			var wide []int
+			if c.Thorough() && ci%16 != 0 {
+				for x := 0; x < 65536; x++ {
+					wide = append(wide, x)
+				}
+			} else {
+				for x := 0; x < 256; x++ {
+					wide = append(wide, (p&0xFF00)|x, (x<<8)|(p&0xFF))
+				}
+			}
+			for _, who := range []string{"f1", "o1"} {
+				for _, pr := range protos {
+					for _, po := range wide {
+						al := s.me.Cfg.CheckInboundTrafficPolicy(uint8(pr), uint16(po), s.node(who).ID.IP)
+						nWide++
+						if al {
+							events = append(events, map[string]any{"ev": "policy", "svcs": a0.Svcs, "who": who, "proto": pr, "port": po, "allowed": al, "friends": a0.Friends})
+						}
+					}
+				}
+			}
 		}
 		for _, a := range cases {
 			switch a.Name {
@@ -357,6 +382,8 @@ func run(c *vf.Ctx) {
 	}
 	if len(a0svcsNone) == 0 {
 	}
+	c.Eval(nWide)
+	c.Extra("wide_port_sweep_calls", nWide)
 	c.Stage("R", map[string]any{"configurations": len(order), "skipped_parser_rejected": skipped, "events": len(events)})
 	c.Logf("R: %d configurations, %d observations", len(order), len(events))
 
